@@ -112,8 +112,10 @@ def check_model(chk: harness.Check, name: str, text: str) -> None:
 
 
 def worker(args) -> Dict[str, Any]:
-    argv, shard, n_shards, n_models = args
+    argv, shard, n_shards, n_models = args[:-1]
+    mins = args[-1]
     chk = harness.Check("C30", "exploration", RULE, argv)
+    chk.set_worker_minimums(mins, n_shards)
     budget = chk.wall_budget(150, 900)
     models: List[Tuple[str, str]] = []
     if shard == 0:
@@ -128,7 +130,7 @@ def worker(args) -> Dict[str, Any]:
         m = mmgen.generate(chk.rng("model", i), profile)
         models.append((f"mmg/{chk.seed}/{i}", m.text))
     for idx, (name, text) in enumerate(models):
-        if chk.elapsed() > budget:
+        if chk.should_stop(budget):
             chk.count("models_skipped_for_budget", len(models) - idx)
             break
         check_model(chk, name, text)
@@ -139,8 +141,14 @@ def main(argv) -> int:
     chk = harness.Check("C30", "exploration", RULE, argv)
     n_models = chk.pick(150, 4000)
     n_shards = 12
+    mins = {
+        "constant_sets_compared": chk.pick(100, 1000),
+        "primitive_constants_compared": chk.pick(50, 500),
+        "enumerations_compared": chk.pick(100, 1000),
+        "from_str_evaluations": chk.pick(1000, 10000),
+    }
     with concurrent.futures.ProcessPoolExecutor(max_workers=n_shards) as pool:
-        jobs = [pool.submit(worker, (list(argv), s, n_shards, n_models)) for s in range(n_shards)]
+        jobs = [pool.submit(worker, (list(argv), s, n_shards, n_models, mins)) for s in range(n_shards)]
         for job in jobs:
             try:
                 chk.merge(job.result())
@@ -148,8 +156,6 @@ def main(argv) -> int:
                 chk.harness_error(f"worker failed: {err!r}")
     if chk.tier == "thorough":
         check_model(chk, "corpus/v3", corpus.v3())
-    chk.require_min("constant_sets_compared", chk.pick(100, 1000))
-    chk.require_min("primitive_constants_compared", chk.pick(50, 500))
-    chk.require_min("enumerations_compared", chk.pick(100, 1000))
-    chk.require_min("from_str_evaluations", chk.pick(1000, 10000))
+    for counter_name, minimum in mins.items():
+        chk.require_min(counter_name, minimum)
     return chk.finish()
